@@ -368,6 +368,8 @@ class Frame:
             return out
         if isinstance(st, ast.Try):
             return self.do_try(st, p)
+        if hasattr(ast, "Match") and isinstance(st, ast.Match):
+            return self.do_match(st, p)
         if isinstance(st, (ast.With, ast.AsyncWith)):
             cur = [p]
             keys = []
@@ -875,6 +877,74 @@ class Frame:
             b = p.fork() if d is None else p
             b.conds.append((txt, False, tt.key()))
             out.append((b, False))
+        return out
+
+    def _pattern_test(self, pat, subj: ast.expr, binds: list) -> Optional[ast.expr]:
+        """The test a ``case`` pattern stands for, as an ordinary expression over the subject (None: not modelled).
+        Capture names are appended to ``binds`` as (name, expression)."""
+        if isinstance(pat, ast.MatchClass) and not pat.patterns and not pat.kwd_patterns:
+            return ast.Call(func=ast.Name(id="isinstance", ctx=ast.Load()), args=[subj, pat.cls], keywords=[])
+        if isinstance(pat, ast.MatchValue):
+            return ast.Compare(left=subj, ops=[ast.Eq()], comparators=[pat.value])
+        if isinstance(pat, ast.MatchSingleton):
+            return ast.Compare(left=subj, ops=[ast.Is()], comparators=[ast.Constant(value=pat.value)])
+        if isinstance(pat, ast.MatchAs):
+            inner = ast.Constant(value=True) if pat.pattern is None else self._pattern_test(pat.pattern, subj, binds)
+            if inner is not None and pat.name:
+                binds.append((pat.name, subj))
+            return inner
+        if isinstance(pat, ast.MatchOr):
+            tests = [self._pattern_test(x, subj, binds) for x in pat.patterns]
+            if any(t is None for t in tests):
+                return None
+            return ast.BoolOp(op=ast.Or(), values=tests)
+        return None
+
+    def do_match(self, st, p: Path) -> List[Path]:
+        """``match subject: case …`` as the if/elif chain of the tests its patterns stand for (class patterns without
+        sub-patterns, values, singletons, captures, wildcards, alternatives, guards)."""
+        out: List[Path] = []
+        if isinstance(st.subject, ast.Name):
+            subj: ast.expr = st.subject
+            cur = [p]
+        else:
+            name = f"<match@{st.lineno}>"
+            cur = []
+            for q, t in self.expr(st.subject, p):
+                if q.status == "live":
+                    q.env[name] = t
+                    cur.append(q)
+                else:
+                    out.append(q)
+            subj = ast.Name(id=name, ctx=ast.Load())
+        for case in st.cases:
+            binds: list = []
+            test = self._pattern_test(case.pattern, subj, binds)
+            if test is None:
+                self.ctx.note(f"match pattern {type(case.pattern).__name__} not modelled in {self.fname}")
+                test = ast.Call(func=ast.Name(id="<pattern>", ctx=ast.Load()), args=[subj], keywords=[])
+            if case.guard is not None:
+                test = ast.BoolOp(op=ast.And(), values=[test, case.guard])
+            for x in ast.walk(test):
+                if not hasattr(x, "lineno"):
+                    x.lineno = x.end_lineno = case.pattern.lineno
+                    x.col_offset = x.end_col_offset = case.pattern.col_offset
+            nxt = []
+            for q in cur:
+                # captures are bound before the guard is evaluated
+                for nm, ex in binds:
+                    r_ = self.peek(ex, q)
+                    if r_ is not None:
+                        q.env[nm] = r_
+                for q2, v in self.branch(test, q):
+                    if v is None or q2.status != "live":
+                        out.append(q2)
+                    elif v:
+                        out.extend(self.block(case.body, [q2]))
+                    else:
+                        nxt.append(q2)
+            cur = nxt
+        out.extend(cur)
         return out
 
     def do_if(self, st: ast.If, p: Path) -> List[Path]:
